@@ -157,12 +157,19 @@ impl DnsCache {
     ///
     /// Note that the keys in the returned HashMap are the same hostname, with different cases
     /// of letters (e.g. "example.local.", "Example.local.", "EXAMPLE.local.").
+    ///
+    /// Records that are expired now but not evicted yet are skipped. A name
+    /// with no live address left does not appear in the result.
     pub(crate) fn get_addresses_for_host(&self, host: &str) -> HashMap<String, HashSet<ScopedIp>> {
         let hostname_lower = host.to_lowercase();
         let mut result = HashMap::new();
+        let now = current_time_millis();
 
         if let Some(records) = self.addr.get(&hostname_lower) {
             for record in records {
+                if record.record.get_record().is_expired(now) {
+                    continue;
+                }
                 if let Some(dns_addr) = record.record.any().downcast_ref::<DnsAddress>() {
                     let record_name = record.record.get_name().to_string();
                     let address = dns_addr.address();
